@@ -19,17 +19,18 @@ Slices == atoi(EnvOr("VERIF_SLICES", "1"))
 Slice == atoi(EnvOr("VERIF_SLICE", "0"))
 EdgeCode(par) == LET RECURSIVE S(_) S(n) == IF n = 0 THEN 0 ELSE S(n - 1) * 7 + Cardinality(par[n]) * 3 + (IF n \in par[n] THEN 1 ELSE 0) + (IF 1 \in par[n] THEN 2 ELSE 0) IN S(NN)
 Choose == /\ phase = 0 /\ phase' = 1
-          /\ \E kind \in [NodeSet -> KindSet], par \in ParSets, dist \in [NodeSet -> BOOLEAN], st \in [NodeSet -> {0, 5, 10}] :
+          /\ \E kind \in [NodeSet -> KindSet], par \in ParSets, dist \in [NodeSet -> BOOLEAN], st \in [NodeSet -> {0, 5, 10}], supp \in BOOLEAN :
                /\ \A n \in NodeSet : StOK(kind[n], st[n])
                /\ SelfLoops \/ \A n \in NodeSet : n \notin par[n]
                /\ EdgeCode(par) % Slices = Slice
                /\ \A n \in NodeSet : dist[n] => kind[n] \in {"or", "and"}
-               /\ gr' = [kind |-> kind, par |-> par, st |-> st, dist |-> dist]
+               /\ (supp => \E n \in NodeSet : kind[n] = "defense")
+               /\ gr' = [kind |-> kind, par |-> par, st |-> st, dist |-> dist, supp |-> supp]
 Spec == Init /\ [][Choose]_<<phase, gr>>
 Flags(G) == (IF \E n \in Nodes(G) : n \in G.par[n] THEN {"selfloop"} ELSE {})
        \cup (IF \E n \in Nodes(G) : G.dist[n] /\ \E c \in Nodes(G) : n \in G.par[c] THEN {"distparent"} ELSE {})
        \cup (IF \E n \in Nodes(G) : IsSrc(G, n) /\ G.par[n] # {} THEN {"source_with_parents"} ELSE {})
-Emit == phase = 1 => PrintT(ToJson([n |-> NN, kind |-> gr.kind, par |-> gr.par, st |-> gr.st, dist |-> gr.dist,
+Emit == phase = 1 => PrintT(ToJson([n |-> NN, kind |-> gr.kind, par |-> gr.par, st |-> gr.st, dist |-> gr.dist, supp |-> gr.supp,
                                     V |-> GFPV(gr), N |-> GFPN(gr), flags |-> Flags(gr)]))
 Theorem == phase = 1 => GfpCorrect(gr)
 =============================================================================
